@@ -521,7 +521,20 @@ fn classify_raw(o: &Outcome) -> Option<Failure> {
             // The class is the message up to the first quoted excerpt of the
             // program/value (which would make every class unique).
             let head = msg.split("_@_").next().unwrap_or("").replace('_', " ");
-            let head = head.split('`').next().unwrap_or("").to_string();
+            // keep short quoted names (`Option::unwrap()`), drop long quoted excerpts
+            let mut kept = String::new();
+            for (i, seg) in head.split('`').enumerate() {
+                if i % 2 == 0 {
+                    kept.push_str(seg);
+                } else if seg.chars().count() <= 40 {
+                    kept.push('`');
+                    kept.push_str(seg);
+                    kept.push('`');
+                } else {
+                    kept.push_str("`…`");
+                }
+            }
+            let head = kept;
             let head = match head.find(" is inside ") {
                 Some(p) => head[..p].to_string(),
                 None => head,
